@@ -69,7 +69,17 @@ class Prop:
                     cuts = sorted(rng.sample(range(1, len(payload)), n - 1))
                     # sequence ids 0-9 and the empty id (distinct slots, also 0 versus empty)
                     seq = rng.choice(['0', '', '1', '1', str(len(parts) % 10), str(rng.randint(0, 9))])
-                    lines = gen.render(bits, seq=seq, chan=rng.choice('AB'), cuts=cuts)
+                    chan = rng.choice('AB')
+                    lines = gen.render(bits, seq=seq, chan=chan, cuts=cuts)
+                    if rng.random() < 0.12:
+                        # one fragment with an EMPTY payload (the shape of pyais issue #157: `!AIVDM,2,2,0,A,,0*16`)
+                        pts = [0] + cuts[:-1] + [len(payload)]
+                        chunks = [payload[a:b] for a, b in zip(pts, pts[1:])]
+                        chunks.insert(rng.randint(1, n - 1), '')
+                        fill = (6 - len(bits) % 6) % 6
+                        last = max(i for i, c in enumerate(chunks) if c)
+                        lines = [gen.sentence('AIVDM', n, i + 1, seq, chan, c, fill if i == last else 0)
+                                 for i, c in enumerate(chunks)]
                     if rng.random() < 0.5:
                         rng.shuffle(lines)
                     if rng.random() < 0.3:
